@@ -303,7 +303,7 @@ func (g *Gen) printerShape() []*catOblig {
 			obs = append(obs, ob)
 			exprFields := map[string]bool{}
 			for i := 0; i < ni.st.NumFields(); i++ {
-				if types.Implements(ni.st.Field(i).Type(), exprIface) {
+				if _, isIface := ni.st.Field(i).Type().Underlying().(*types.Interface); isIface && types.Implements(ni.st.Field(i).Type(), exprIface) {
 					exprFields[ni.st.Field(i).Name()] = true
 				}
 			}
